@@ -95,7 +95,9 @@ class Abs(object):
             else:
                 p = v.data
                 if not isinstance(p, str):
-                    raise NotAbstractable('XStr payload is not text')
+                    # a typed string whose payload is not text (only hex / b64 carry bytes): projected to a payload no
+                    # document can spell, so that every comparison involving it fails visibly instead of stopping the run
+                    p = '\x00payload of type %s' % type(p).__name__
             return [K_XSTR, cps(v.encoding), cps(p)]
         if isinstance(v, hs.Uri):
             return [K_URI, cps(v)]
